@@ -116,6 +116,8 @@ class DerivativeSlopeTransformer(_PanelToPanelTransformer):
     @staticmethod
     def row_wise_get_der(X):
         def get_der(x):
+            # work on positions: a cell Series may carry any time index
+            x = np.asarray(x)
             der = []
             for i in range(1, len(x) - 1):
                 der.append(((x[i] - x[i - 1]) + ((x[i + 1] - x[i - 1]) / 2)) / 2)
